@@ -596,6 +596,7 @@ bool settle(Ctx &c, const Op &op, ExcKind ex, unsigned allowed) {
     }
     c.sig.u8((uint8_t)(0xE0 + ex));
     if (fired && (op.fault & F_CORRUPT)) probe(c, PR_FAULT_EXCEPTION_CTOR);
+    each_obj(c, [&](ObjBase &o) { if (o.role != ROLE_NONE && o.survived_throw) { probe(c, PR_THROW_THEN_REUSED); o.survived_throw = false; } });
     if (ex == EX_NONE) {
         if (fired) set_viol(c, "bad_alloc_not_propagated", "an allocation failed inside the operation but it returned normally");
         each_obj(c, [](ObjBase &o) { if (o.role == ROLE_TARGET || o.role == ROLE_RVALUE) o.ptr_known = false; });
@@ -623,7 +624,7 @@ bool settle(Ctx &c, const Op &op, ExcKind ex, unsigned allowed) {
     }
     each_obj(c, [&](ObjBase &o) {
         if (o.role == ROLE_TARGET || o.role == ROLE_RVALUE) {
-            o.after_throw = true; o.ptr_known = false;
+            o.after_throw = true; o.ptr_known = false; o.survived_throw = true;
         }
     });
     return false;
